@@ -68,6 +68,8 @@ struct Cfg {
     catch: u64,
     bblock: u64,
     polls: u64,
+    bpanic: u64,
+    o2d: bool,
 }
 
 struct Sh {
@@ -88,6 +90,9 @@ struct Sh {
     owner_unwound: AtomicBool,  // the owner panicked itself / was cancelled
     cancelled: AtomicBool,
     inpoll: AtomicBool,         // the owner is inside poll or leaving the scope: the only times a bottom half may start
+    userpoll: AtomicBool,       // the owner is inside a poll it called from the closure
+    poll_seq: AtomicUsize,      // polls started
+    stale: AtomicBool,          // O2: thread::panicking() was seen set on the poller's thread while the poller was not unwinding
 }
 
 struct Rng(u64);
@@ -197,13 +202,28 @@ fn bottom_half(sh: &Arc<Sh>, i: usize, round: usize, r: &mut Rng, g: &mut ArmGua
         sh.botblk[i].store(true, SeqCst);
         pause(r);
     }
-    if r.pct(sh.cfg.apanic) {
+    if r.pct(sh.cfg.apanic) || r.pct(sh.cfg.bpanic) {
         sh.arm_panics.fetch_add(1, SeqCst);
         g.user_panic = true;
         c.log("arm.panic", i as u64, 1, None);
         panic!("arm-panic-{i}");
     }
     sh.botdone[i].fetch_add(1, SeqCst);
+}
+
+/// O2 (known finding F33d): std's panic count is per OS thread; a select coroutine whose bottom half panicked while it ran inline
+/// on the poller's thread and that then YIELDED while unwinding (EventSender::drop -> wait_kernel_yield) leaves it set there
+fn note_stale_panicking(sh: &Arc<Sh>) {
+    if sh.cfg.o2d && std::thread::panicking() && !sh.stale.swap(true, SeqCst) {
+        let c = mayv::ctx();
+        c.log("o2.stale", 0, 0, None);
+        // the cancel arrives now, while the poller still runs on this thread (the canceller waits for the flag)
+        let mut n = 0u64;
+        while !sh.cancelled.load(SeqCst) && n < 100_000 {
+            c.yield_now();
+            n += 1;
+        }
+    }
 }
 
 /// what the owner checks when poll hands out an event
@@ -321,9 +341,14 @@ fn cq_owner(sh: &Arc<Sh>, seed: u64) {
                 let t0 = c.now();
                 c.log("poll.call", to.map_or(0, |d| d + 1), t0, None);
                 let catch = r.pct(cfg.catch);
+                note_stale_panicking(sh);
                 sh.inpoll.store(true, SeqCst);
+                sh.poll_seq.fetch_add(1, SeqCst);
+                sh.userpoll.store(true, SeqCst);
                 let pr = catch_unwind(AssertUnwindSafe(|| cq.poll(to.map(Duration::from_nanos))));
+                sh.userpoll.store(false, SeqCst);
                 sh.inpoll.store(false, SeqCst);
+                note_stale_panicking(sh);
                 let now = c.now();
                 match pr {
                     Ok(Ok(ev)) => {
@@ -365,7 +390,7 @@ fn cq_owner(sh: &Arc<Sh>, seed: u64) {
                         }
                     }
                 }
-                if r.pct(20) {
+                if !cfg.o2d && r.pct(20) {
                     pause(&mut r);
                 }
             }
@@ -593,6 +618,8 @@ fn main() {
         catch: envn("MAYV_CATCH", 0),
         bblock: envn("MAYV_BBLOCK", 0),
         polls: envn("MAYV_POLLS", 40),
+        bpanic: envn("MAYV_BPANIC", 0),
+        o2d: envn("MAYV_O2D", 0) == 1,
     };
     let owner_co = envs("MAYV_OWNER", "co") != "th";
     let cancel = envn("MAYV_CANCEL", 0) == 1;
@@ -624,6 +651,9 @@ fn main() {
             owner_unwound: AtomicBool::new(false),
             cancelled: AtomicBool::new(false),
             inpoll: AtomicBool::new(false),
+            userpoll: AtomicBool::new(false),
+            poll_seq: AtomicUsize::new(0),
+            stale: AtomicBool::new(false),
         });
         let seed = ctx.rand();
         let done = Arc::new(AtomicBool::new(false));
@@ -656,9 +686,21 @@ fn main() {
                 let root = h.coroutine().clone();
                 let dt = DURS[(ctx.rand() % DURS.len() as u64) as usize] + [0u64, 0, 300_000, 1_000_000][(ctx.rand() % 4) as usize];
                 let spins = ctx.rand() % 80;
+                let o2d = sc.o2d;
                 canceller = Some(ctx.spawn("canceller", move || {
                     let c = mayv::ctx();
-                    if dt > 0 {
+                    if o2d {
+                        // O2d variant: cancel the poller once its thread carries the stale panicking flag
+                        let mut n = 0u64;
+                        while !sh2.stale.load(SeqCst) && !d2.load(SeqCst) {
+                            if n < 2000 {
+                                c.yield_now();
+                            } else {
+                                c.sleep_ns(20_000);
+                            }
+                            n += 1;
+                        }
+                    } else if dt > 0 {
                         c.sleep_ns(dt);
                     }
                     for _ in 0..spins {
@@ -672,6 +714,36 @@ fn main() {
                     unsafe { root.cancel() };
                     c.log("cancel.ret", 0, 0, None);
                 }));
+            }
+            if sc.o2d {
+                // watchdog: the cancelled poller neither unwinds nor blocks: it spins inside Cqueue::poll (no progress of the
+                // virtual clock, no new poll) - reported and the run ended before the step budget is used up
+                let (sh2, d2) = (sh.clone(), done.clone());
+                ctx.spawn("watchdog", move || {
+                    let c = mayv::ctx();
+                    let (mut last, mut cnt) = ((0usize, 0u64), 0u64);
+                    loop {
+                        c.yield_now();
+                        if d2.load(SeqCst) {
+                            return;
+                        }
+                        let cur = (sh2.poll_seq.load(SeqCst), c.now());
+                        if cur != last {
+                            last = cur;
+                            cnt = 0;
+                        } else {
+                            cnt += 1;
+                        }
+                        if cnt > 1500 && sh2.userpoll.load(SeqCst) && sh2.cancelled.load(SeqCst) {
+                            if sh2.stale.load(SeqCst) {
+                                c.fail(format!("O2d: the cancelled poller coroutine busy-spins inside Cqueue::poll (poll #{}, {} watchdog rounds without progress of the clock): thread::panicking() is set on its thread although it is not unwinding - a select coroutine yielded there while unwinding - so check_cancel skips the Cancel and park short-cuts", cur.0, cnt));
+                            } else {
+                                c.fail(format!("the cancelled poller coroutine busy-spins inside Cqueue::poll (poll #{}, {} watchdog rounds without progress of the clock) and no stale thread::panicking() flag was seen", cur.0, cnt));
+                            }
+                            mayv::finish(mayv::ctl(), 2);
+                        }
+                    }
+                });
             }
             // the main thread is not an actor of the model: it does not register as a waiter while the trace is recorded
             let mut polls = 0u64;
